@@ -65,6 +65,12 @@ fn child_body(engine: &mut Engine, case: &Value, chan: &mut std::fs::File, out_f
     let empty = vec![];
     let units = case["units"].as_array().unwrap_or(&empty);
     let stop_on_error = case["stop_on_error"].as_bool().unwrap_or(false);
+    if let Some(n) = case["gc_every"].as_u64() {
+        steel::verif::set_gc_every(n, case["gc_jitter"].as_u64().unwrap_or(0));
+    }
+    if let Some(p) = case["gc_poison"].as_bool() {
+        steel::verif::set_gc_poison(p);
+    }
     for (i, unit) in units.iter().enumerate() {
         let src = unit.as_str().unwrap_or("").to_string();
         let start = fd_len(out_fd);
@@ -169,6 +175,11 @@ pub fn fork_run<F: FnOnce(&mut std::fs::File, i32)>(
             libc::close(fds[0]);
             libc::dup2(out_fd, 1);
             libc::dup2(err_fd, 2);
+            let devnull = std::ffi::CString::new("/dev/null").unwrap();
+            let nfd = libc::open(devnull.as_ptr(), libc::O_RDONLY);
+            if nfd >= 0 {
+                libc::dup2(nfd, 0);
+            }
             if mem_mb > 0 {
                 let lim = libc::rlimit {
                     rlim_cur: mem_mb * 1024 * 1024,
@@ -300,7 +311,8 @@ pub fn main(args: &[String]) -> i32 {
         };
         let timeout = case["timeout_ms"].as_u64().unwrap_or(default_timeout);
         let stack_kb = case["stack_kb"].as_u64().unwrap_or(0);
-        let oc = fork_run(timeout, mem_mb, stack_kb, |chan, out_fd| {
+        let mem = case["mem_mb"].as_u64().unwrap_or(mem_mb);
+        let oc = fork_run(timeout, mem, stack_kb, |chan, out_fd| {
             child_body(&mut engine, &case, chan, out_fd);
         });
         let mut units: Vec<Value> = Vec::new();
@@ -354,6 +366,33 @@ pub fn main(args: &[String]) -> i32 {
             }
         }
         let _ = writeln!(w, "{}", rec);
+    }
+    let _ = w.flush();
+    0
+}
+
+/// `vharness globals`: list every global of a fresh engine that is bound to a procedure, with the
+/// kind of procedure, one JSON object per line.
+pub fn globals_main(args: &[String]) -> i32 {
+    let opts = parse_opts(args);
+    let outp = opts.get("out").expect("--out");
+    let kind = opts.get("engine").map(|s| s.as_str()).unwrap_or("new");
+    let engine = make_engine(kind);
+    let mut w = std::io::BufWriter::new(std::fs::File::create(outp).expect("create --out"));
+    let names: Vec<String> = engine.globals().iter().map(|x| x.resolve().to_string()).collect();
+    for n in names {
+        if let Ok(v) = engine.extract_value(&n) {
+            let k = match &v {
+                steel::SteelVal::FuncV(_) => "func",
+                steel::SteelVal::MutFunc(_) => "mutfunc",
+                steel::SteelVal::BuiltIn(_) => "builtin",
+                steel::SteelVal::BoxedFunction(_) => "boxed",
+                steel::SteelVal::Closure(_) => "closure",
+                steel::SteelVal::FutureFunc(_) => "future",
+                _ => continue,
+            };
+            let _ = writeln!(w, "{}", json!({"name": n, "kind": k}));
+        }
     }
     let _ = w.flush();
     0
